@@ -157,6 +157,9 @@ def workload(ctx):
         chi = 0.0 if ts in ("both0", "wedge_only") else float(rng.uniform(-0.5, 0.5))
         wedge = 0.0 if ts in ("both0", "chi_only") else float(rng.uniform(-0.5, 0.5))
         twoth = math.radians(float(rng.uniform(0.5, 150)))
+        if i % 4 == 3:
+            # low-angle reflections: |g| = sin(theta) ~ 1e-2, every intermediate of the quadratic is tiny in absolute terms
+            twoth = math.radians(float(0.5 * 10 ** rng.uniform(0, 1)))
         st = math.sin(twoth / 2)
         P = oracle.Rx(chi) @ oracle.Ry(wedge)
         axis = P @ np.array([0.0, 0.0, 1.0])
@@ -200,6 +203,7 @@ def case_solve(ctx, p):
     g = d * st
     mon.config("tilts:" + p["tilts"])
     mon.config("dirs:" + p["dirs"])
+    mon.config("2theta:" + ("<5deg" if twoth < math.radians(5) else ">=5deg"))
     mon.nontriv(d, twoth, chi, wedge)
     res = {}
     for mod, m in ((ctx.T, "tools"), (ctx.L, "laue")):
